@@ -530,6 +530,7 @@ func init() {
 			st.States, st.Transitions, st.Nontrivial = st.Execs, st.Execs, st.Execs
 			st.NOutcomes = int(st.Execs)
 		}
+		c16RealProcess(c)
 		// one update that removes several servers at once: every one of them stops listening, the kept one serves on
 		if c.Want("remove-several-servers") && c.Shard == 1%c.NShards {
 			st := c.Stat("remove-several-servers", "enumeration")
